@@ -288,6 +288,35 @@ def run(ck):
             rl.append("\t".join(["H"] + ops))
         compare(rl, "random histories (len<=60, depth<=8)")
         samples.append([show(s) for s in rl[0].split("\t")[1:]][:12])
+        # get_all_var_names INTO A NAMED OUTPUT VARIABLE (defined or not at that moment).  The model's OpNames has no output
+        # variable; the oracle is the model run with `- A` as last step: the names are those of the map BEFORE the assignment
+        # (an already defined output variable is a key like any other), and afterwards the output variable holds the handle ("H")
+        nm_hist = []
+        for _ in range(4000 if thorough else 600):
+            ops, _info = rand_history(rng, rng.randint(6, 14), 4)
+            nm_hist.append((ops, rng.choice(N3 + ["zz"])))
+        nm_model = ck.model(["\t".join(["H"] + ops + [st(None, "A")]) for ops, _o in nm_hist])
+        nm_impl = ck.impl(["\t".join(["H"] + ops + [st(o, "A")]) for ops, o in nm_hist])
+        stats["kinds"]["names into a named output variable"] = len(nm_hist)
+        for (ops, o), m, i in zip(nm_hist, nm_model, nm_impl):
+            ml, il = m.split("\t")[-1], i.split("\t")[-1]
+            if not ml.startswith("L"):
+                continue
+            names, dump = ml.split(";", 1)
+            kv = dict(x.split("=", 1) for x in dump.split(",") if "=" in x)
+            kv[enc_str(o)] = enc_str("H")
+            want = names + ";" + ",".join("%s=%s" % (k, kv[k]) for k in sorted(kv, key=lambda k: dec_str(k)))
+            igot = il
+            if ";" in il:
+                n2, d2 = il.split(";", 1)
+                kv2 = dict(x.split("=", 1) for x in d2.split(",") if "=" in x)
+                igot = n2 + ";" + ",".join("%s=%s" % (k, kv2[k]) for k in sorted(kv2, key=lambda k: dec_str(k)))
+            stats["histories"] += 1
+            if igot != want and len(ck.violations) < 5:
+                ck.violation({"kind": "get_all_var_names into a named output variable: the names must be those of the map before the "
+                                      "assignment (the output variable included when it is already defined)",
+                              "history": [show(x) for x in ops] + [show(st(o, "A"))], "expected": want, "implementation": il,
+                              "theorems": ["C11_refines"], "seed": ck.seed})
         ck.coverage.update({
             "evaluations": stats["histories"],
             "steps_compared": stats["steps"],
